@@ -1,7 +1,6 @@
-(* Proofs for C27 (Model/RowIds.v).  Part 1: the loop translated from the source equals [fill] (re-checked
-   against the regenerated translation on every run).  Part 2: facts about [fill] and the row-id set.
-   Part 3: the unchanged code (partial statements + exactness of the hypotheses).  Part 4: the repaired
-   variant (full statements). *)
+(* Proofs for C27 (Model/RowIds.v).  Part 1: the two loops translated from the source equal [alloc] (re-checked
+   against the regenerated translation on every run).  Part 2: the row-id set.  Part 3: validation, filling and
+   the full statements.  Part 4: regression witnesses (the defects repaired by fix e346da4). *)
 From Coq Require Import ZArith List Bool Lia.
 Import ListNotations.
 Require Import Grist.Lib.PyPrelude Grist.Lib.PyMonad Grist.Model.RowIds GristGen.RowIds_gen.
@@ -24,40 +23,58 @@ Proof.
     rewrite IH. reflexivity.
 Qed.
 
-(* the body of the translated loop, as a function (must stay convertible with the generated text) *)
-Definition gen_body (st__ : list (option Z) * Z) (it__ : Z * option Z) : py_result (list (option Z) * Z) :=
+Definition gen_validate_body (st__ : list Z * Z) (it__ : option Z) : py_result (list Z * Z) :=
+  let '(seen, next_row_id) := st__ in
+  let row_id := it__ in
+  match row_id with
+  | None => PyOk (seen, next_row_id)
+  | Some row_id =>
+      if row_id <? 0 then PyOk (seen, next_row_id)
+      else if row_id >? 1000000 then PyErr PyValueError
+      else if row_id =? 0 then PyErr PyValueError
+      else if py_mem Z.eqb row_id seen then PyErr PyValueError
+      else let seen := seen ++ [row_id] in
+           let next_row_id := Z.max next_row_id (row_id + 1) in
+           PyOk (seen, next_row_id)
+  end.
+
+Lemma gen_validate_is_validate : forall req seen next,
+  py_fold gen_validate_body req (seen, next) =
+  match validate_ids seen next req with
+  | PyOk n' => PyOk (seen ++ explicit_ids req, n')
+  | PyErr e => PyErr e
+  end.
+Proof.
+  induction req as [|r t IH]; intros seen next.
+  - cbn. rewrite app_nil_r. reflexivity.
+  - cbn [py_fold validate_ids explicit_ids flat_map]. unfold gen_validate_body at 1. unfold explicit, MAX_ROW_ID.
+    destruct r as [z|]; [|apply IH].
+    destruct (z <? 0); [apply IH|]. destruct (z >? 1000000); [reflexivity|].
+    destruct (z =? 0); [reflexivity|]. cbn [orb]. destruct (py_mem Z.eqb z seen); [reflexivity|].
+    cbv zeta. rewrite IH. cbn [app]. rewrite <- app_assoc. reflexivity.
+Qed.
+
+Definition gen_fill_body (st__ : list (option Z) * Z) (it__ : Z * option Z) : py_result (list (option Z) * Z) :=
   let '(filled_row_ids, next_row_id) := st__ in
   let '(i, row_id) := it__ in
   match row_id with
-  | None =>
-      let v__ := next_row_id in
-      let filled_row_ids := py_set_nth i (Some v__) filled_row_ids in
-      let row_id := v__ in
-      let next_row_id := Z.max next_row_id row_id + 1 in
-      PyOk (filled_row_ids, next_row_id)
+  | None => let filled_row_ids := py_set_nth i (Some next_row_id) filled_row_ids in
+            let next_row_id := next_row_id + 1 in PyOk (filled_row_ids, next_row_id)
   | Some row_id =>
       if row_id <? 0
-      then
-        let v__ := next_row_id in
-        let filled_row_ids := py_set_nth i (Some v__) filled_row_ids in
-        let row_id := v__ in
-        let next_row_id := Z.max next_row_id row_id + 1 in
-        PyOk (filled_row_ids, next_row_id)
-      else if row_id >? 1000000 then PyErr PyValueError
-      else let next_row_id := Z.max next_row_id row_id + 1 in PyOk (filled_row_ids, next_row_id)
+      then let filled_row_ids := py_set_nth i (Some next_row_id) filled_row_ids in
+           let next_row_id := next_row_id + 1 in PyOk (filled_row_ids, next_row_id)
+      else PyOk (filled_row_ids, next_row_id)
   end.
 
-Lemma gen_loop_is_fill : forall (todo : list (option Z)) (done : list Z) (next : Z),
-  py_bind (py_fold gen_body (py_enumerate_from (Z.of_nat (length done)) todo) (map Some done ++ todo, next))
+Lemma gen_fill_is_fill_autos : forall (todo : list (option Z)) (done : list Z) (next : Z),
+  py_bind (py_fold gen_fill_body (py_enumerate_from (Z.of_nat (length done)) todo) (map Some done ++ todo, next))
           (fun st__ => let '(filled_row_ids, _) := st__ in PyOk filled_row_ids)
-  = match fill next todo with
-    | PyOk l => PyOk (map Some done ++ map Some l)
-    | PyErr e => PyErr e
-    end.
+  = PyOk (map Some done ++ map Some (fill_autos next todo)).
 Proof.
   induction todo as [|r t IH]; intros done next.
   - cbn. reflexivity.
-  - cbn [py_enumerate_from py_fold fill].
+  - cbn [py_enumerate_from py_fold fill_autos].
     assert (Hstep : forall v, map Some done ++ Some v :: t = map Some (done ++ [v]) ++ t).
     { intros v. rewrite map_app. rewrite <- app_assoc. reflexivity. }
     assert (Hlen : forall v : Z, Z.of_nat (length done) + 1 = Z.of_nat (length (done ++ [v]))).
@@ -67,31 +84,34 @@ Proof.
     { intros v. rewrite <- (map_length Some done). apply py_set_nth_app. }
     assert (Hout : forall v l, map Some (done ++ [v]) ++ map Some l = map Some done ++ map Some (v :: l)).
     { intros v l. rewrite map_app. rewrite <- app_assoc. reflexivity. }
-    unfold gen_body at 1. unfold fill_one.
+    unfold gen_fill_body at 1. unfold explicit.
     destruct r as [z|].
     + destruct (z <? 0) eqn:Hneg.
-      * cbv zeta. rewrite Hset, Hstep, (Hlen next), IH.
-        destruct (fill (Z.max next next + 1) t); [rewrite Hout|]; reflexivity.
-      * unfold MAX_ROW_ID. destruct (z >? 1000000) eqn:Hhigh.
-        -- reflexivity.
-        -- cbv zeta.
-           replace (map Some done ++ Some z :: t) with (map Some (done ++ [z]) ++ t) by (symmetry; apply Hstep).
-           rewrite (Hlen z), IH.
-           destruct (fill (Z.max next z + 1) t); [rewrite Hout|]; reflexivity.
-    + cbv zeta. rewrite Hset, Hstep, (Hlen next), IH.
-      destruct (fill (Z.max next next + 1) t); [rewrite Hout|]; reflexivity.
+      * cbv zeta. rewrite Hset, Hstep, (Hlen next), IH, Hout. reflexivity.
+      * replace (map Some done ++ Some z :: t) with (map Some (done ++ [z]) ++ t) by (symmetry; apply Hstep).
+        rewrite (Hlen z), IH, Hout. reflexivity.
+    + cbv zeta. rewrite Hset, Hstep, (Hlen next), IH, Hout. reflexivity.
 Qed.
 
-(* The loop as translated from useractions.py is [fill]. *)
-Lemma fill_row_ids_is_fill : forall (row_ids : list (option Z)) (next : Z),
-  fill_row_ids row_ids next = lift_ids (fill next row_ids).
+(* The validation loop and the filling loop as translated from useractions.py are [alloc]. *)
+Lemma fill_row_ids_is_alloc : forall (row_ids : list (option Z)) (next : Z),
+  fill_row_ids row_ids next = lift_ids (alloc next row_ids).
 Proof.
-  intros row_ids next. unfold fill_row_ids, lift_ids.
-  exact (gen_loop_is_fill row_ids [] next).
+  intros row_ids next. unfold fill_row_ids, lift_ids, alloc.
+  change (py_bind (py_fold gen_validate_body row_ids ([], next))
+            (fun st__ => let '(_, next_row_id) := st__ in
+               py_bind (py_fold gen_fill_body (py_enumerate row_ids) (row_ids, next_row_id))
+                       (fun st__ => let '(filled_row_ids, _) := st__ in PyOk filled_row_ids))
+          = match match validate_ids [] next row_ids with
+                  | PyOk n' => PyOk (fill_autos n' row_ids) | PyErr e => PyErr e end with
+            | PyOk l => PyOk (map Some l) | PyErr e => PyErr e end).
+  rewrite gen_validate_is_validate.
+  destruct (validate_ids [] next row_ids) as [n'|e]; [|reflexivity].
+  cbn [py_bind]. exact (gen_fill_is_fill_autos row_ids [] n').
 Qed.
 
 (* ================================================================================================ *)
-(* Part 2: the row-id set and [fill]                                                                *)
+(* Part 2: the row-id set                                                                           *)
 
 Lemma Forall2_impl : forall (A B : Type) (P Q : A -> B -> Prop),
   (forall a b, P a b -> Q a b) -> forall l m, Forall2 P l m -> Forall2 Q l m.
@@ -176,65 +196,6 @@ Proof.
   destruct (y <? 0) eqn:Hn; [discriminate|]. apply Z.ltb_ge in Hn. inversion H; subst. split; [reflexivity|assumption].
 Qed.
 
-Lemma fill_one_explicit : forall n r z, explicit r = Some z ->
-  fill_one n r = if z >? MAX_ROW_ID then PyErr PyValueError else PyOk z.
-Proof.
-  intros n r z H. destruct (explicit_some _ _ H) as [-> Hz]. cbn [fill_one].
-  replace (z <? 0) with false by (symmetry; apply Z.ltb_ge; assumption). reflexivity.
-Qed.
-
-Lemma fill_one_auto : forall n r, explicit r = None -> fill_one n r = PyOk n.
-Proof.
-  intros n [y|] H; cbn [explicit fill_one] in *; [|reflexivity].
-  destruct (y <? 0); [reflexivity|discriminate].
-Qed.
-
-(* one step of [fill], by kind of slot *)
-Lemma fill_cons_explicit : forall n r z t out, explicit r = Some z ->
-  fill n (r :: t) = PyOk out ->
-  z <= MAX_ROW_ID /\ exists o, out = z :: o /\ fill (Z.max n z + 1) t = PyOk o.
-Proof.
-  intros n r z t out He H. cbn [fill] in H. rewrite (fill_one_explicit n r z He) in H.
-  destruct (z >? MAX_ROW_ID) eqn:Hh; [discriminate|].
-  destruct (fill (Z.max n z + 1) t) as [o|] eqn:Ht; [|discriminate].
-  inversion H; subst. split; [lia|]. exists o. split; reflexivity.
-Qed.
-
-Lemma fill_cons_auto : forall n r t out, explicit r = None ->
-  fill n (r :: t) = PyOk out ->
-  exists o, out = n :: o /\ fill (n + 1) t = PyOk o.
-Proof.
-  intros n r t out He H. cbn [fill] in H. rewrite (fill_one_auto n r He) in H.
-  replace (Z.max n n + 1) with (n + 1) in H by lia.
-  destruct (fill (n + 1) t) as [o|] eqn:Ht; [|discriminate].
-  inversion H; subst. exists o. split; reflexivity.
-Qed.
-
-(* every returned id is an explicit id of the request or an automatic id >= next *)
-Lemma fill_elems : forall req n out, fill n req = PyOk out ->
-  forall o, In o out -> In o (explicit_ids req) \/ n <= o.
-Proof.
-  induction req as [|r t IH]; intros n out H o Ho.
-  - cbn in H. inversion H; subst. contradiction.
-  - cbn [explicit_ids flat_map]. destruct (explicit r) as [z|] eqn:He.
-    + destruct (fill_cons_explicit _ _ _ _ _ He H) as [_ [o' [-> Ht]]].
-      destruct Ho as [<-|Ho]; [left; left; reflexivity|].
-      destruct (IH _ _ Ht _ Ho) as [Hi|Hi]; [left; right; exact Hi|right; lia].
-    + destruct (fill_cons_auto _ _ _ _ He H) as [o' [-> Ht]].
-      destruct Ho as [<-|Ho]; [right; lia|].
-      destruct (IH _ _ Ht _ Ho) as [Hi|Hi]; [left; exact Hi|right; lia].
-Qed.
-
-Lemma explicit_in_out : forall req n out, fill n req = PyOk out ->
-  forall z, In z (explicit_ids req) -> In z out.
-Proof.
-  induction req as [|r t IH]; intros n out H z Hz; [contradiction|].
-  cbn [explicit_ids flat_map] in Hz. destruct (explicit r) as [y|] eqn:He.
-  - destruct (fill_cons_explicit _ _ _ _ _ He H) as [_ [o' [-> Ht]]].
-    destruct Hz as [<-|Hz]; [left; reflexivity|right; eapply IH; eassumption].
-  - destruct (fill_cons_auto _ _ _ _ He H) as [o' [-> Ht]]. right. eapply IH; eassumption.
-Qed.
-
 Lemma explicit_ids_bounds : forall req z, In z (explicit_ids req) -> 0 <= z.
 Proof.
   induction req as [|r t IH]; intros z Hz; [contradiction|].
@@ -244,116 +205,6 @@ Proof.
 Qed.
 
 (* shape of the result: explicit ids honoured (and within the limit), automatic ids >= next *)
-Lemma fill_shape : forall req n out, fill n req = PyOk out ->
-  Forall2 (fun r o => match explicit r with Some z => o = z /\ z <= MAX_ROW_ID | None => n <= o end) req out.
-Proof.
-  induction req as [|r t IH]; intros n out H.
-  - cbn in H. inversion H; subst. constructor.
-  - destruct (explicit r) as [z|] eqn:He.
-    + destruct (fill_cons_explicit _ _ _ _ _ He H) as [Hz [o' [-> Ht]]].
-      constructor; [rewrite He; split; [reflexivity|assumption]|].
-      eapply Forall2_impl; [|apply (IH _ _ Ht)]. intros a b Hab. cbv beta in *.
-      destruct (explicit a); [assumption|lia].
-    + destruct (fill_cons_auto _ _ _ _ He H) as [o' [-> Ht]].
-      constructor; [rewrite He; lia|].
-      eapply Forall2_impl; [|apply (IH _ _ Ht)]. intros a b Hab. cbv beta in *.
-      destruct (explicit a); [assumption|lia].
-Qed.
-
-(* [fill] fails exactly on an explicit id above the limit *)
-Lemma fill_err_iff : forall req n,
-  (exists e, fill n req = PyErr e) <-> (exists z, In z (explicit_ids req) /\ z > MAX_ROW_ID).
-Proof.
-  induction req as [|r t IH]; intros n.
-  - cbn. split; intros [x H]; [discriminate|destruct H as [[] _]].
-  - cbn [fill explicit_ids flat_map]. destruct (explicit r) as [z|] eqn:He.
-    + rewrite (fill_one_explicit n r z He). destruct (z >? MAX_ROW_ID) eqn:Hh.
-      * split; [|intros _; eexists; reflexivity]. intros _. exists z. split; [left; reflexivity|lia].
-      * specialize (IH (Z.max n z + 1)). destruct (fill (Z.max n z + 1) t) as [o|e] eqn:Ht.
-        -- split; [intros [x Hx]; discriminate|]. intros [y [[<-|Hy] Hy2]]; [lia|].
-           exfalso. destruct IH as [_ IH]. destruct IH as [x Hx]; [exists y; tauto|discriminate].
-        -- split; [|intros _; eexists; reflexivity]. intros _. destruct IH as [IH _].
-           destruct IH as [y [Hy1 Hy2]]; [eexists; reflexivity|]. exists y. split; [right; assumption|assumption].
-    + rewrite (fill_one_auto n r He). specialize (IH (Z.max n n + 1)).
-      cbn [app]. destruct (fill (Z.max n n + 1) t) as [o|e] eqn:Ht.
-      * split; [intros [x Hx]; discriminate|]. intros Hy. destruct IH as [_ IH]. destruct (IH Hy); discriminate.
-      * split; [|intros _; eexists; reflexivity]. intros _. apply IH. eexists; reflexivity.
-Qed.
-
-Lemma clash_free_explicit_notin : forall req n autos, clash_free n autos req = true ->
-  forall z, In z (explicit_ids req) -> ~ In z autos.
-Proof.
-  induction req as [|r t IH]; intros n autos H z Hz; [contradiction|].
-  cbn [clash_free] in H. cbn [explicit_ids flat_map] in Hz. destruct (explicit r) as [y|] eqn:He.
-  - apply andb_true_iff in H. destruct H as [H1 H2].
-    destruct Hz as [<-|Hz].
-    + apply mem_false. destruct (py_mem Z.eqb y autos); [discriminate|reflexivity].
-    + eapply IH; eassumption.
-  - intros Hin. eapply (IH _ _ H z Hz). right. assumption.
-Qed.
-
-(* distinctness of the filled ids, from input-level hypotheses *)
-Lemma fill_nodup : forall req n autos out, fill n req = PyOk out ->
-  NoDup (explicit_ids req) -> clash_free n autos req = true -> NoDup out.
-Proof.
-  induction req as [|r t IH]; intros n autos out H Hnd Hcf.
-  - cbn in H. inversion H; subst. constructor.
-  - cbn [clash_free] in Hcf. cbn [explicit_ids flat_map] in Hnd. destruct (explicit r) as [z|] eqn:He.
-    + destruct (fill_cons_explicit _ _ _ _ _ He H) as [_ [o' [-> Ht]]].
-      apply andb_true_iff in Hcf. destruct Hcf as [_ Hcf]. cbn [app] in Hnd.
-      inversion Hnd as [|? ? Hz Hnd']; subst. constructor; [|eapply IH; eassumption].
-      intros Hin. destruct (fill_elems _ _ _ Ht _ Hin) as [Hi|Hi]; [contradiction|lia].
-    + destruct (fill_cons_auto _ _ _ _ He H) as [o' [-> Ht]]. cbn [app] in Hnd.
-      constructor; [|eapply IH; eassumption].
-      intros Hin. destruct (fill_elems _ _ _ Ht _ Hin) as [Hi|Hi]; [|lia].
-      eapply clash_free_explicit_notin; [exact Hcf|exact Hi|left; reflexivity].
-Qed.
-
-(* ... and conversely: if the filled ids are distinct, the hypotheses held (they are exact) *)
-Lemma fill_nodup_inv : forall req n autos out, fill n req = PyOk out ->
-  NoDup out -> (forall a, In a autos -> ~ In a out) ->
-  NoDup (explicit_ids req) /\ clash_free n autos req = true.
-Proof.
-  induction req as [|r t IH]; intros n autos out H Hnd Hdis.
-  - split; [constructor|reflexivity].
-  - cbn [clash_free explicit_ids flat_map]. destruct (explicit r) as [z|] eqn:He.
-    + destruct (fill_cons_explicit _ _ _ _ _ He H) as [_ [o' [-> Ht]]].
-      inversion Hnd as [|? ? Hz Hnd']; subst.
-      destruct (IH _ autos _ Ht Hnd') as [I1 I2].
-      { intros a Ha Hin. apply (Hdis a Ha). right. assumption. }
-      split.
-      * cbn [app]. constructor; [|assumption]. intros Hin. apply Hz. eapply explicit_in_out; eassumption.
-      * apply andb_true_iff. split; [|assumption].
-        destruct (py_mem Z.eqb z autos) eqn:Hm; [|reflexivity].
-        apply mem_In in Hm. exfalso. apply (Hdis z Hm). left. reflexivity.
-    + destruct (fill_cons_auto _ _ _ _ He H) as [o' [-> Ht]].
-      inversion Hnd as [|? ? Hz Hnd']; subst. cbn [app].
-      apply (IH _ (n :: autos) _ Ht Hnd').
-      intros a [<-|Ha] Hin; [contradiction|]. apply (Hdis a Ha). right. assumption.
-Qed.
-
-Lemma forallb_auto_explicit_ids : forall t, forallb is_auto t = true -> explicit_ids t = [].
-Proof.
-  induction t as [|r t IH]; intros H; [reflexivity|].
-  cbn [forallb] in H. apply andb_true_iff in H. destruct H as [H1 H2].
-  cbn [explicit_ids flat_map]. unfold is_auto in H1. destruct (explicit r); [discriminate|]. apply IH. assumption.
-Qed.
-
-Lemma clash_free_no_explicit : forall t n autos, explicit_ids t = [] -> clash_free n autos t = true.
-Proof.
-  induction t as [|r t IH]; intros n autos H; [reflexivity|].
-  cbn [explicit_ids flat_map] in H. cbn [clash_free]. destruct (explicit r); [discriminate|]. apply IH. assumption.
-Qed.
-
-(* explicit ids first, automatic slots last: nothing can clash *)
-Lemma explicit_first_clash_free : forall req n, explicit_first req = true -> clash_free n [] req = true.
-Proof.
-  induction req as [|r t IH]; intros n H; [reflexivity|].
-  cbn [explicit_first] in H. cbn [clash_free]. unfold is_auto in H. destruct (explicit r) as [z|].
-  - cbn [py_mem negb andb]. apply IH. assumption.
-  - apply clash_free_no_explicit. apply forallb_auto_explicit_ids. assumption.
-Qed.
-
 Lemma existsb_row_in_false : forall rs out, existsb (fun r => row_in r rs) out = false ->
   forall o, In o out -> 0 < o -> ~ In o rs.
 Proof.
@@ -365,134 +216,19 @@ Proof.
 Qed.
 
 (* ================================================================================================ *)
-(* Part 3: the unchanged code                                                                       *)
-
-(* what an accepted BulkAddRecord guarantees with NO extra hypothesis *)
-Lemma add_accepted_always : forall rs req out rs', wf_rows rs ->
-  do_bulk_add_or_replace false rs req = Accepted out rs' ->
-  fill (next_row_id rs) req = PyOk out /\
-  (forall r, In r out -> ~ In r rs) /\
-  Forall2 (fun r o => match explicit r with Some z => o = z | None => forall e, In e rs -> e < o end) req out /\
-  (forall r, In r rs' <-> In r rs \/ (In r out /\ 0 < r)) /\
-  wf_rows rs'.
-Proof.
-  intros rs req out rs' Hwf H. unfold do_bulk_add_or_replace in H.
-  destruct (fill (next_row_id rs) req) as [o|e] eqn:Hf; [|discriminate].
-  unfold finish, doc_bulk_add in H.
-  destruct (existsb (fun r => row_in r rs) o) eqn:Hex; [discriminate|].
-  inversion H; subst. split; [reflexivity|]. split; [|split; [|split]].
-  - intros r Hr Hin. assert (0 < r) by (destruct Hwf as [_ Hp]; rewrite Forall_forall in Hp; apply Hp; assumption).
-    eapply existsb_row_in_false; eassumption.
-  - eapply Forall2_impl; [|apply (fill_shape _ _ _ Hf)]. intros a b Hab. cbv beta in *.
-    destruct (explicit a); [tauto|]. intros e He. apply next_row_id_gt in He. lia.
-  - intros r. apply add_rows_In.
-  - apply add_rows_wf. assumption.
-Qed.
-
-Lemma out_positive : forall rs req out, fill (next_row_id rs) req = PyOk out ->
-  ~ In 0 (explicit_ids req) -> forall o, In o out -> 0 < o.
-Proof.
-  intros rs req out Hf H0 o Ho. destruct (fill_elems _ _ _ Hf _ Ho) as [Hi|Hi].
-  - pose proof (explicit_ids_bounds _ _ Hi). assert (o <> 0) by (intros ->; contradiction). lia.
-  - pose proof (next_row_id_pos rs). lia.
-Qed.
-
-(* C27_alloc under the narrowest hypotheses that exclude the three defects *)
-Lemma alloc_partial : forall rs req, wf_rows rs ->
-  ~ In 0 (explicit_ids req) -> NoDup (explicit_ids req) -> clash_free (next_row_id rs) [] req = true ->
-  alloc_statement (do_bulk_add_or_replace false) rs req.
-Proof.
-  intros rs req Hwf H0 Hnd Hcf out rs' H.
-  destruct (add_accepted_always _ _ _ _ Hwf H) as [Hf [Hdis [Hsh [Hin Hwf']]]].
-  split; [eapply fill_nodup; eassumption|]. split; [assumption|]. split; [assumption|]. split; [|assumption].
-  intros r. rewrite Hin. split; [tauto|]. intros [Hr|Hr]; [tauto|]. right. split; [assumption|].
-  eapply out_positive; eassumption.
-Qed.
-
-(* exactness: whenever the conclusion holds for an accepted request, the three hypotheses held *)
-Lemma alloc_partial_exact : forall rs req out rs', wf_rows rs ->
-  do_bulk_add_or_replace false rs req = Accepted out rs' ->
-  alloc_statement (do_bulk_add_or_replace false) rs req ->
-  ~ In 0 (explicit_ids req) /\ NoDup (explicit_ids req) /\ clash_free (next_row_id rs) [] req = true.
-Proof.
-  intros rs req out rs' Hwf H Hst. destruct (Hst _ _ H) as [Hnd [_ [_ [Hin [_ Hpos]]]]].
-  destruct (add_accepted_always _ _ _ _ Hwf H) as [Hf _].
-  split.
-  - intros H0. pose proof (explicit_in_out _ _ _ Hf _ H0) as Ho.
-    assert (Hr : In 0 rs') by (apply Hin; right; assumption).
-    rewrite Forall_forall in Hpos. apply Hpos in Hr. lia.
-  - apply (fill_nodup_inv _ _ [] _ Hf Hnd). intros a [].
-Qed.
-
-(* the same for ReplaceTableData: no existing rows to collide with, next id starts at 1 *)
-Lemma replace_accepted_always : forall old req out rs',
-  do_bulk_add_or_replace true old req = Accepted out rs' ->
-  fill 1 req = PyOk out /\ (forall r, In r rs' <-> In r out /\ 0 < r) /\ wf_rows rs'.
-Proof.
-  intros old req out rs' H. unfold do_bulk_add_or_replace in H.
-  destruct (fill 1 req) as [o|e] eqn:Hf; [|discriminate]. cbn [finish] in H. inversion H; subst.
-  split; [reflexivity|]. split.
-  - intros r. unfold doc_replace. rewrite add_rows_In. cbn [In]. tauto.
-  - apply add_rows_wf. apply wf_nil.
-Qed.
-
-Lemma alloc_partial_replace : forall old req,
-  ~ In 0 (explicit_ids req) -> NoDup (explicit_ids req) -> clash_free 1 [] req = true ->
-  alloc_statement (replace_as_add do_bulk_add_or_replace old) [] req.
-Proof.
-  intros old req H0 Hnd Hcf out rs' H. unfold replace_as_add in H.
-  destruct (replace_accepted_always _ _ _ _ H) as [Hf [Hin Hwf]].
-  split; [eapply fill_nodup; eassumption|]. split; [intros r _ []|]. split; [|split; [|assumption]].
-  - eapply Forall2_impl; [|apply (fill_shape _ _ _ Hf)]. intros a b Hab. cbv beta in *.
-    destruct (explicit a); [tauto|]. intros e [].
-  - intros r. rewrite Hin. cbn [In]. split; [tauto|]. intros [[]|Hr]. split; [assumption|].
-    destruct (fill_elems _ _ _ Hf _ Hr) as [Hi|Hi]; [|lia].
-    pose proof (explicit_ids_bounds _ _ Hi). assert (r <> 0) by (intros ->; contradiction). lia.
-Qed.
-
-(* the rejections the unchanged code does perform: over the limit, and (for adds) already existing *)
-Lemma rejects_partial_add : forall rs req, wf_rows rs ->
-  ((exists z, In z (explicit_ids req) /\ z > MAX_ROW_ID) \/ (exists z, In z (explicit_ids req) /\ In z rs)) ->
-  (exists e, do_bulk_add_or_replace false rs req = Rejected e) /\
-  rows_after rs (do_bulk_add_or_replace false rs req) = rs.
-Proof.
-  intros rs req Hwf Hbad.
-  assert (E : exists e, do_bulk_add_or_replace false rs req = Rejected e).
-  { unfold do_bulk_add_or_replace. destruct (fill (next_row_id rs) req) as [o|e] eqn:Hf; [|eexists; reflexivity].
-    destruct Hbad as [Hbad|[z [Hz1 Hz2]]].
-    - exfalso. apply (fill_err_iff req (next_row_id rs)) in Hbad. destruct Hbad as [e He]. congruence.
-    - unfold finish, doc_bulk_add.
-      assert (Hex : existsb (fun r => row_in r rs) o = true).
-      { apply existsb_exists. exists z. split; [eapply explicit_in_out; eassumption|].
-        unfold row_in. apply andb_true_iff. split; [|apply mem_In; assumption].
-        apply Z.ltb_lt. destruct Hwf as [_ Hp]. rewrite Forall_forall in Hp. apply Hp. assumption. }
-      rewrite Hex. eexists; reflexivity. }
-  split; [assumption|]. destruct E as [e ->]. reflexivity.
-Qed.
-
-Lemma rejects_partial_replace : forall old req,
-  (exists z, In z (explicit_ids req) /\ z > MAX_ROW_ID) ->
-  (exists e, do_bulk_add_or_replace true old req = Rejected e) /\
-  rows_after old (do_bulk_add_or_replace true old req) = old.
-Proof.
-  intros old req Hbad. apply (fill_err_iff req 1) in Hbad. destruct Hbad as [e He].
-  unfold do_bulk_add_or_replace. rewrite He. split; [eexists; reflexivity|reflexivity].
-Qed.
-
-(* ================================================================================================ *)
-(* Part 4: the repaired variant                                                                     *)
+(* Part 3: validation, filling, and the full statements                                             *)
 
 Definition good_explicit (seen : list Z) (z : Z) : Prop := 0 < z <= MAX_ROW_ID /\ ~ In z seen.
 
 Lemma validate_ok : forall req seen n n',
-  validate_fixed seen n req = PyOk n' ->
+  validate_ids seen n req = PyOk n' ->
   n <= n' /\
   (forall z, In z (explicit_ids req) -> good_explicit seen z /\ z < n') /\
   NoDup (explicit_ids req).
 Proof.
   induction req as [|r t IH]; intros seen n n' H.
   - cbn in H. inversion H; subst. split; [lia|]. split; [intros z []|constructor].
-  - cbn [validate_fixed] in H. cbn [explicit_ids flat_map]. destruct (explicit r) as [z|] eqn:He.
+  - cbn [validate_ids] in H. cbn [explicit_ids flat_map]. destruct (explicit r) as [z|] eqn:He.
     + destruct (z >? MAX_ROW_ID) eqn:Hh; [discriminate|].
       destruct ((z =? 0) || py_mem Z.eqb z seen) eqn:Hc; [discriminate|].
       apply orb_false_iff in Hc. destruct Hc as [Hc1 Hc2].
@@ -512,11 +248,11 @@ Qed.
 Lemma validate_accepts : forall req seen n,
   (forall z, In z (explicit_ids req) -> good_explicit seen z) ->
   NoDup (explicit_ids req) ->
-  exists n', validate_fixed seen n req = PyOk n'.
+  exists n', validate_ids seen n req = PyOk n'.
 Proof.
   induction req as [|r t IH]; intros seen n Hg Hnd.
   - eexists; reflexivity.
-  - cbn [validate_fixed]. cbn [explicit_ids flat_map] in Hg, Hnd. destruct (explicit r) as [z|] eqn:He.
+  - cbn [validate_ids]. cbn [explicit_ids flat_map] in Hg, Hnd. destruct (explicit r) as [z|] eqn:He.
     + destruct (Hg z (or_introl eq_refl)) as [G1 G2].
       replace (z >? MAX_ROW_ID) with false by (symmetry; rewrite Z.gtb_ltb; apply Z.ltb_ge; lia).
       replace (z =? 0) with false by (symmetry; apply Z.eqb_neq; lia).
@@ -570,7 +306,7 @@ Qed.
 
 (* what validation guarantees about the ids then handed to the doc action *)
 Lemma fixed_out_facts : forall req n0 n',
-  1 <= n0 -> validate_fixed [] n0 req = PyOk n' ->
+  1 <= n0 -> validate_ids [] n0 req = PyOk n' ->
   let out := fill_autos n' req in
   NoDup out /\ (forall o, In o out -> 0 < o) /\
   Forall2 (fun r o => match explicit r with Some z => o = z | None => n0 <= o end) req out.
@@ -585,12 +321,12 @@ Proof.
 Qed.
 
 Lemma fixed_add_accepted : forall rs req out rs',
-  do_bulk_add_or_replace_fixed false rs req = Accepted out rs' ->
-  exists n', validate_fixed [] (next_row_id rs) req = PyOk n' /\ out = fill_autos n' req /\
+  do_bulk_add_or_replace false rs req = Accepted out rs' ->
+  exists n', validate_ids [] (next_row_id rs) req = PyOk n' /\ out = fill_autos n' req /\
              existsb (fun r => row_in r rs) out = false /\ rs' = add_rows rs out.
 Proof.
-  intros rs req out rs' H. unfold do_bulk_add_or_replace_fixed in H.
-  destruct (validate_fixed [] (next_row_id rs) req) as [n'|] eqn:Hv; [|discriminate].
+  intros rs req out rs' H. unfold do_bulk_add_or_replace, alloc in H.
+  destruct (validate_ids [] (next_row_id rs) req) as [n'|] eqn:Hv; [|discriminate].
   unfold finish, doc_bulk_add in H.
   destruct (existsb (fun r => row_in r rs) (fill_autos n' req)) eqn:Hex; [discriminate|]. inversion H; subst.
   exists n'. repeat split; try reflexivity. assumption.
@@ -598,7 +334,7 @@ Qed.
 
 (* C27_alloc at full strength for the repaired code *)
 Lemma alloc_fixed : forall rs req, wf_rows rs ->
-  alloc_statement (do_bulk_add_or_replace_fixed false) rs req.
+  alloc_statement (do_bulk_add_or_replace false) rs req.
 Proof.
   intros rs req Hwf out rs' H.
   destruct (fixed_add_accepted _ _ _ _ H) as [n' [Hv [-> [Hex ->]]]].
@@ -612,10 +348,10 @@ Proof.
 Qed.
 
 Lemma alloc_fixed_replace : forall old req, wf_rows old ->
-  alloc_statement (replace_as_add do_bulk_add_or_replace_fixed old) [] req.
+  alloc_statement (replace_as_add do_bulk_add_or_replace old) [] req.
 Proof.
-  intros old req Hwf out rs' H. unfold replace_as_add, do_bulk_add_or_replace_fixed in H.
-  destruct (validate_fixed [] 1 req) as [n'|] eqn:Hv; [|discriminate].
+  intros old req Hwf out rs' H. unfold replace_as_add, do_bulk_add_or_replace, alloc in H.
+  destruct (validate_ids [] 1 req) as [n'|] eqn:Hv; [|discriminate].
   cbn [finish] in H. inversion H; subst.
   destruct (fixed_out_facts req 1 n' (Z.le_refl 1) Hv) as [Hnd [Hpos Hsh]].
   split; [assumption|]. split; [intros r _ []|]. split; [|split].
@@ -627,12 +363,12 @@ Qed.
 
 (* C27_rejects at full strength for the repaired code *)
 Lemma rejects_fixed : forall replace rs req, wf_rows rs ->
-  rejects_statement (do_bulk_add_or_replace_fixed replace) (negb replace) rs req.
+  rejects_statement (do_bulk_add_or_replace replace) (negb replace) rs req.
 Proof.
   intros replace rs req Hwf Hbad.
-  assert (E : exists e, do_bulk_add_or_replace_fixed replace rs req = Rejected e).
-  { unfold do_bulk_add_or_replace_fixed.
-    destruct (validate_fixed [] (if replace then 1 else next_row_id rs) req) as [n'|e] eqn:Hv;
+  assert (E : exists e, do_bulk_add_or_replace replace rs req = Rejected e).
+  { unfold do_bulk_add_or_replace, alloc.
+    destruct (validate_ids [] (if replace then 1 else next_row_id rs) req) as [n'|e] eqn:Hv;
       [|eexists; reflexivity].
     destruct (validate_ok _ _ _ _ Hv) as [_ [Hg Hnd]].
     destruct Hbad as [[z [Hz1 Hz2]]|[H0|[Hd|[Hc [z [Hz1 Hz2]]]]]].
@@ -652,9 +388,9 @@ Qed.
 Lemma accepts_fixed : forall replace rs req, wf_rows rs ->
   (forall z, In z (explicit_ids req) -> 0 < z <= MAX_ROW_ID /\ (replace = false -> ~ In z rs)) ->
   NoDup (explicit_ids req) ->
-  exists out rs', do_bulk_add_or_replace_fixed replace rs req = Accepted out rs'.
+  exists out rs', do_bulk_add_or_replace replace rs req = Accepted out rs'.
 Proof.
-  intros replace rs req Hwf Hg Hnd. unfold do_bulk_add_or_replace_fixed.
+  intros replace rs req Hwf Hg Hnd. unfold do_bulk_add_or_replace, alloc.
   destruct (validate_accepts req [] (if replace then 1 else next_row_id rs)) as [n' Hv].
   { intros z Hz. destruct (Hg z Hz) as [G1 G2]. split; [assumption|intros []]. }
   { assumption. }
@@ -670,102 +406,44 @@ Proof.
 Qed.
 
 (* The repair changes nothing for requests that are purely automatic: same ids, same rows. *)
-Lemma fill_all_auto : forall req n, explicit_ids req = [] -> fill n req = PyOk (fill_autos n req).
-Proof.
-  induction req as [|r t IH]; intros n H; [reflexivity|].
-  cbn [explicit_ids flat_map] in H. cbn [fill fill_autos]. destruct (explicit r) as [z|] eqn:He; [discriminate|].
-  rewrite (fill_one_auto n r He). replace (Z.max n n + 1) with (n + 1) by lia.
-  rewrite (IH (n + 1) H). reflexivity.
-Qed.
-
-Lemma validate_all_auto : forall req seen n, explicit_ids req = [] ->
-  validate_fixed seen n req = PyOk n.
-Proof.
-  induction req as [|r t IH]; intros seen n H; [reflexivity|].
-  cbn [explicit_ids flat_map] in H. cbn [validate_fixed]. destruct (explicit r); [discriminate|]. apply IH. assumption.
-Qed.
-
-Lemma fixed_same_when_all_auto : forall replace rs req, explicit_ids req = [] ->
-  do_bulk_add_or_replace_fixed replace rs req = do_bulk_add_or_replace replace rs req.
-Proof.
-  intros replace rs req H. unfold do_bulk_add_or_replace_fixed, do_bulk_add_or_replace.
-  rewrite (validate_all_auto req [] _ H), (fill_all_auto req _ H). reflexivity.
-Qed.
-
 (* ================================================================================================ *)
-(* Part 5: the unchanged code violates the full statements (one witness per failure mode)           *)
+(* Part 4: regression witnesses                                                                     *)
 
 Lemma wf_12 : wf_rows [1; 2].
 Proof. split; repeat constructor; cbn; intuition lia. Qed.
 
-(* BulkAddRecord T [5,5] on an empty table: returns [5,5], one row *)
-Lemma refuted_repeat :
-  do_bulk_add_or_replace false [] [Some 5; Some 5] = Accepted [5; 5] [5] /\
-  ~ alloc_statement (do_bulk_add_or_replace false) [] [Some 5; Some 5] /\
-  ~ rejects_statement (do_bulk_add_or_replace false) true [] [Some 5; Some 5].
-Proof.
-  split; [vm_compute; reflexivity|]. split.
-  - intros H. destruct (H [5; 5] [5] eq_refl) as [Hnd _].
-    inversion Hnd as [|? ? Hn _]. apply Hn. left. reflexivity.
-  - intros H. destruct H as [[e He] _]; [|vm_compute in He; discriminate].
-    right. right. left. intros Hnd. vm_compute in Hnd. inversion Hnd as [|? ? Hn _]. apply Hn. left. reflexivity.
-Qed.
 
-(* BulkAddRecord T [0]: returns [0], no row *)
-Lemma refuted_zero :
-  do_bulk_add_or_replace false [] [Some 0] = Accepted [0] [] /\
-  ~ alloc_statement (do_bulk_add_or_replace false) [] [Some 0] /\
-  ~ rejects_statement (do_bulk_add_or_replace false) true [] [Some 0].
-Proof.
-  split; [vm_compute; reflexivity|]. split.
-  - intros H. destruct (H [0] [] eq_refl) as [_ [_ [_ [Hin _]]]].
-    destruct (proj2 (Hin 0) (or_intror (or_introl eq_refl))).
-  - intros H. destruct H as [[e He] _]; [|vm_compute in He; discriminate].
-    right. left. left. reflexivity.
-Qed.
-
-(* BulkAddRecord T [None,3,None] on rows {1,2}: returns [3,3,5]; the request itself is satisfiable *)
-Lemma refuted_auto_collision :
-  do_bulk_add_or_replace false [1; 2] [None; Some 3; None] = Accepted [3; 3; 5] [1; 2; 3; 5] /\
-  ~ alloc_statement (do_bulk_add_or_replace false) [1; 2] [None; Some 3; None] /\
-  ~ bad_request true [1; 2] [None; Some 3; None].
-Proof.
-  split; [vm_compute; reflexivity|]. split.
-  - intros H. destruct (H [3; 3; 5] [1; 2; 3; 5] eq_refl) as [Hnd _].
-    inversion Hnd as [|? ? Hn _]. apply Hn. left. reflexivity.
-  - intros [[z [Hz1 Hz2]]|[H0|[Hd|[_ [z [Hz1 Hz2]]]]]]; vm_compute in *.
-    + destruct Hz1 as [<-|[]]. discriminate.
-    + destruct H0 as [H0|[]]. discriminate.
-    + apply Hd. repeat constructor. intros [].
-    + destruct Hz1 as [<-|[]]. destruct Hz2 as [H|[H|[]]]; discriminate.
-Qed.
-
-(* the same two defects through ReplaceTableData *)
-Lemma refuted_replace :
-  do_bulk_add_or_replace true [1; 2] [Some 5; Some 5] = Accepted [5; 5] [5] /\
-  do_bulk_add_or_replace true [1; 2] [Some 0] = Accepted [0] [] /\
-  do_bulk_add_or_replace true [1; 2] [None; Some 1; None] = Accepted [1; 1; 3] [1; 3].
-Proof. repeat split; vm_compute; reflexivity. Qed.
-
-Lemma alloc_full_refuted : ~ alloc_full do_bulk_add_or_replace.
-Proof.
-  intros [H _]. apply (proj1 (proj2 refuted_auto_collision)). apply H. exact wf_12.
-Qed.
-
-Lemma rejects_full_refuted : ~ rejects_full do_bulk_add_or_replace.
-Proof.
-  intros H. apply (proj2 (proj2 refuted_repeat)). apply (H false). apply wf_nil.
-Qed.
-
-Lemma alloc_full_fixed : alloc_full do_bulk_add_or_replace_fixed.
+Lemma alloc_full_fixed : alloc_full do_bulk_add_or_replace.
 Proof. split; [exact alloc_fixed|exact alloc_fixed_replace]. Qed.
 
-Lemma rejects_full_fixed : rejects_full do_bulk_add_or_replace_fixed.
+Lemma rejects_full_fixed : rejects_full do_bulk_add_or_replace.
 Proof. exact rejects_fixed. Qed.
 
-(* on the three witnesses the repaired code rejects, rejects, and allocates distinct ids *)
-Lemma fixed_on_witnesses :
-  do_bulk_add_or_replace_fixed false [] [Some 5; Some 5] = Rejected PyValueError /\
-  do_bulk_add_or_replace_fixed false [] [Some 0] = Rejected PyValueError /\
-  do_bulk_add_or_replace_fixed false [1; 2] [None; Some 3; None] = Accepted [4; 3; 5] [1; 2; 4; 3; 5].
+(* the inputs on which the code failed before fix e346da4: now rejected, rejected, and given distinct ids *)
+Lemma regression_witnesses :
+  do_bulk_add_or_replace false [] [Some 5; Some 5] = Rejected PyValueError /\
+  do_bulk_add_or_replace false [] [Some 0] = Rejected PyValueError /\
+  do_bulk_add_or_replace false [1; 2] [None; Some 3; None] = Accepted [4; 3; 5] [1; 2; 4; 3; 5] /\
+  do_bulk_add_or_replace true [1; 2] [Some 5; Some 5] = Rejected PyValueError /\
+  do_bulk_add_or_replace true [1; 2] [Some 0] = Rejected PyValueError /\
+  do_bulk_add_or_replace true [1; 2] [None; Some 1; None] = Accepted [2; 1; 3] [2; 1; 3].
 Proof. repeat split; vm_compute; reflexivity. Qed.
+
+(* the statements themselves on those inputs (instances of the general theorems, kept as named regressions) *)
+Lemma regression_statements :
+  alloc_statement (do_bulk_add_or_replace false) [1; 2] [None; Some 3; None] /\
+  rejects_statement (do_bulk_add_or_replace false) true [] [Some 5; Some 5] /\
+  rejects_statement (do_bulk_add_or_replace false) true [] [Some 0].
+Proof.
+  split; [apply alloc_fixed; exact wf_12|].
+  split; apply (rejects_fixed false); apply wf_nil.
+Qed.
+
+(* shape of an accepted allocation (used by C26): explicit ids honoured, automatic ids >= next *)
+Lemma alloc_shape : forall req n out, 1 <= n -> alloc n req = PyOk out ->
+  Forall2 (fun r o => match explicit r with Some z => o = z | None => n <= o end) req out.
+Proof.
+  intros req n out Hn H. unfold alloc in H.
+  destruct (validate_ids [] n req) as [n'|] eqn:Hv; [|discriminate]. inversion H; subst.
+  apply (fixed_out_facts req n n' Hn Hv).
+Qed.
